@@ -383,7 +383,8 @@ Definition step (rec : mode -> st -> res) (m : mode) (s : st) : res :=
               (let s1 := next s in
                let s2 := if is_lp (cur s1) then next s1 else s1 in
                nil_err (rec Stmt s2) (fun cnd s3 =>
-                 let s4 := if is_rp (cur s3) then next s3 else s3 in
+                 if is_lp (cur s1) && negb (is_rp (cur s3)) then err s3 else
+                 let s4 := if is_lp (cur s1) then next s3 else s3 in
                  bind (rec Block s4) (fun b s5 => Ok (SWhile cnd (as_list b)) s5)))
         | SKw KDo =>
             postfix c
@@ -393,7 +394,7 @@ Definition step (rec : mode -> st -> res) (m : mode) (s : st) : res :=
                    let s3 := if is_lp (cur s2) then next s2 else s2 in
                    nil_err (rec Stmt s3) (fun cnd s4 =>
                      if is_lp (cur s2) && negb (is_rp (cur s4)) then err s4 else
-                     let s5 := if is_rp (cur s4) then next s4 else s4 in
+                     let s5 := if is_lp (cur s2) then next s4 else s4 in
                      let s6 := if is_semi (cur s5) then next s5 else s5 in
                      Ok (SDoWhile cnd (as_list b)) s6)
                  else err s1))
@@ -512,10 +513,7 @@ Definition step (rec : mode -> st -> res) (m : mode) (s : st) : res :=
     | SBin OAdd => bind (rec (Lvl 13) (next s)) (fun e s1 => rec (PLoop (EBin OAdd acc e)) s1)
     | SBin OSub => bind (rec (Lvl 13) (next s)) (fun e s1 => rec (PLoop (EBin OSub acc e)) s1)
     | SRp => rec (Suffix acc) (next s)
-    | _ => match prev_tok s 0 with
-           | Some SRp => rec (Suffix acc) s
-           | _ => err s
-           end
+    | _ => err s
     end
   | CommaList acc =>
     if is_comma (cur s) then
